@@ -212,6 +212,20 @@ def record_cli_case(cid, seed, origin='random'):
         r2 = conv('AB.export', 'AB2.out', hs=str(rnd.randint(1, 999)))
         events.append({'a': 'repeat', 'setlike': 'F', 'what': 'transform ' + destfmt,
                        'out1': rab['AB.out'], 'out2': r2['AB2.out']})
+        # trace deletion with slash annotation: several co-indices on a shared path, different hash seeds
+        with open(os.path.join(tmp, 'ptb.brackets'), 'w', encoding='utf-8') as f:
+            f.write('( (S (NP-1 (NN w1)) (PP-2 (IN w2)) (ADVP-3 (RB w9)) (VP (VB w3) (NP (-NONE- *T*-1)) '
+                    '(PP (-NONE- *T*-2)) (ADVP (-NONE- *T*-3)))) )\n'
+                    '( (S (NP-2 (NN a)) (VP (VB b) (NP (-NONE- *T*-2)) (PP-1 (IN c)) (SBAR (PP (-NONE- *T*-1))))) )\n')
+
+        def slash(dest, hs):
+            a = ['transform', 'ptb.brackets', dest, '--src-format', 'brackets', '--dest-format', 'brackets',
+                 '--trans', 'ptb_delete_traces', '--params', 'keepall', 'slash']
+            return cli_lines(a, tmp, [dest], hs)
+        s0 = slash('ptb0.out', '0')
+        for hs in (str(rnd.randint(1, 9999)), str(rnd.randint(1, 9999)), str(rnd.randint(1, 9999))):
+            events.append({'a': 'repeat', 'setlike': 'F', 'what': 'ptb_delete_traces keepall slash', 'hashseed': hs,
+                           'out1': s0['ptb0.out'], 'out2': slash('ptb_%s.out' % hs, hs)['ptb_%s.out' % hs]})
         # grammar: sums
         gt = rnd.choice(['treebank', 'leftright', 'optimal'])
         mk = rnd.choice([[], ['--markov', 'v:1', 'h:2'], ['--markov', 'v:2', 'h:1', 'nofanout']]) if gt != 'treebank' else []
